@@ -10,6 +10,7 @@ import (
 	"net/http"
 	"net/http/httptest"
 	"net/url"
+	"os"
 	"path/filepath"
 	"sort"
 	"strings"
@@ -275,6 +276,14 @@ func TestVerif_C18(t *testing.T) {
 		env.serve(req)
 	}
 	c18AdminSweep(res, admin, "users with payload names were added", "", "")
+	if os.Getenv("C18_DEBUG") != "" {
+		c18StoredStage(env, res, routes)
+		res.write(t, "TestVerif_C18")
+		return
+	}
+	// stored (second-order) canaries: security keys whose client-chosen fields carry tagged payloads (c18c.go)
+	c18StoredStage(env, res, routes)
+	c18AdminSweep(res, admin, "security-key registrations whose client-chosen fields carry payloads", "", "")
 	probe := func(route verifRoute, mode, credName string, cookie *http.Cookie, payload string) {
 		target := route.Path
 		form := url.Values{}
@@ -472,6 +481,7 @@ func TestVerif_C18(t *testing.T) {
 		hPayloads = payloads
 	}
 	type c18Mode struct{ param, value string }
+	wrapperOf := map[string]string{}
 	hsend := func(route verifRoute, b c18Base, credName string, mode c18Mode, param, payload string) int {
 		over := map[string]string{}
 		if mode.param != "" {
@@ -520,11 +530,12 @@ func TestVerif_C18(t *testing.T) {
 			}
 			res.hit(verifHit{Key: "C18:markup:" + route.Path + ":" + param, Oracle: "request-controlled text became an element, attribute or script content of a response rendered as a document",
 				What: fmt.Sprintf("%s %s%s as %s, %s (base %s): parameter %s = %q -> status %d, Content-Type %s: %s", b.method, route.Path, b.suffix, credName, map[bool]string{true: "with " + modeS, false: "no mode parameter"}[modeS != ""], b.name, param, payload, rr.Code, declared, strings.Join(problems, "; ")),
-				Case: map[string]interface{}{"route": route.Path, "method": b.method, "base": b.name, "cred": credName, "mode": modeS, "param": param, "payload": payload}, Observed: problems})
+				Case: map[string]interface{}{"route": route.Path, "method": b.method, "base": b.name, "cred": credName, "mode": modeS, "param": param, "payload": payload, "wrapper": wrapperOf[payload]}, Observed: problems})
 		}
 		return rr.Code
 	}
 	routeTimes := map[string]string{}
+	var wrapMs int64
 	for _, route := range routes {
 		if strings.HasPrefix(route.Path, "/static/") || strings.HasPrefix(route.Path, "/custom_static/") {
 			continue
@@ -593,6 +604,29 @@ func TestVerif_C18(t *testing.T) {
 					}
 				}
 			}
+			wrapStart := time.Now()
+			// (a') the same with every payload WRAPPED in the forms a handler may take apart before it renders a
+			// part (e-mail address, URL, path, list, JSON, base64): without credentials (the failure path: login
+			// page) and with the first credential the base succeeds with; every listed credential for the routes
+			// with a base of their own (login, second factor, ...)
+			wrapCreds := []string{"none"}
+			if b.creds != nil || verifThorough() {
+				wrapCreds = order
+			} else if len(okCreds) > 0 && okCreds[0] != "none" {
+				wrapCreds = append(wrapCreds, okCreds[0])
+			}
+			for _, cn := range wrapCreds {
+				for _, pm := range params {
+					for _, pl := range c18WrapPayloads() {
+						for _, w := range c18Wrappers(pl) {
+							wrapperOf[w.text] = w.wrapper
+							res.bump("wrapped_probes")
+							hsend(route, b, cn, c18Mode{}, pm, w.text)
+						}
+					}
+				}
+			}
+			wrapMs += time.Since(wrapStart).Milliseconds()
 			// (b) modes: parameter := literal, for the credentials the route accepts
 			modeCreds := okCreds
 			if !verifThorough() && len(modeCreds) > 1 {
@@ -626,6 +660,7 @@ func TestVerif_C18(t *testing.T) {
 		routeTimes[route.Path] = fmt.Sprintf("%d probes, %d ms", res.counts["harvest_probes"]-probesBefore, time.Since(routeStart).Milliseconds())
 	}
 	res.Extra["harvest_route_cost"] = routeTimes
+	res.Extra["wrapped_probes_ms"] = wrapMs
 	c18AdminSweep(res, admin, "the dictionary-driven probes of the service port", "", "")
 	// ---- nested canaries: destinations that are keymaster URLs with canary parameters, on every variant of the
 	// second-factor page (c18b.go)
